@@ -409,24 +409,37 @@ def native_run(harness, values_path, profile, realize=None, timeout=120):
     return "error", out[-1500:]
 
 
-def witness_search(harness, trials=400, budget_s=420):
-    """No playback from Kani (failed bounds / overflow check): run the harness natively with biased
-    pseudo-random values until a trial panics; returns the drawn values of that trial (hex strings)
-    or None.  Only used to concretise a verdict the solver already gave."""
-    env0 = dict(ENV, RUSTC_WRAPPER=os.path.join(REPLAY_DIR, "rustc-wrapper.sh"), RUST_BACKTRACE="0")
+def replay_binary():
+    """the native test binary of the replay crate (dev profile), built by build_replay()"""
+    cands = [f for f in glob.glob(os.path.join(REPLAY_DIR, "target", "debug", "deps", "stunreplay-*"))
+             if "." not in os.path.basename(f) and os.access(f, os.X_OK)]
+    return max(cands, key=os.path.getmtime) if cands else None
+
+
+def witness_search(harness, trials=30000, budget_s=300):
+    """No playback from Kani (failed bounds / overflow check, or Kani's playback gave up): run the
+    harness natively with biased pseudo-random values until a trial panics; returns the drawn values of
+    that trial (hex strings) or None.  Only used to concretise a verdict the solver already gave.
+    The test binary is started directly (a few ms per trial)."""
+    binary = replay_binary()
+    if not binary:
+        return None, 0
+    env0 = dict(ENV, RUST_BACKTRACE="0")
     t0 = time.time()
     for k in range(1, trials + 1):
         if time.time() - t0 > budget_s:
             break
         env = dict(env0, VERIF_REPLAY_SEARCH=str(k))
         try:
-            rc, out = sh(["cargo", "test", "--lib", "--", harness, "--exact", "--test-threads", "1", "--nocapture"], cwd=REPLAY_DIR, timeout=60, env=env)
+            p = subprocess.run([binary, harness, "--exact", "--test-threads", "1", "--nocapture"], cwd=REPLAY_DIR, env=env, timeout=20,
+                               stdout=subprocess.PIPE, stderr=subprocess.STDOUT, text=True, errors="replace")
+            out = p.stdout
         except subprocess.TimeoutExpired:
-            rc, out = 1, "hang"
+            out = "hang"
         if "REPLAY-ASSUME-FALSE" in out or "REPLAY-DESYNC" in out:
             continue
         if re.search(r"test result: FAILED|panicked at", out) or out == "hang":
-            return re.findall(r"^DRAW ([0-9a-f]*)$", out, re.M), k
+            return re.findall(r"DRAW ([0-9a-f]*)$", out, re.M), k
     return None, 0
 
 
